@@ -7,13 +7,13 @@ HERE = os.path.dirname(os.path.abspath(__file__))
 CLAIMED = {
     "C15": {
         "design_ref": "DESIGN.md 4.1",
-        "technique": "deterministic simulation: baton-scheduled real threads with pre-emption at every source line / function return / bytecode instruction of config.py, simulated thread identifiers (reuse), environment flips, crowds of 64-100 threads, threads unknown to the threading module, stale Thread handles released late, strict-warnings worlds, library operations (runner construction / evaluation) between configuration operations, attempts rejected because of a key or a value; every read checked against a reference model; seeded schedule search (uniform, sticky, PCT, race-directed) plus systematic single-insertion sweeps; replay + minimisation",
+        "technique": "deterministic simulation: baton-scheduled real threads with pre-emption at every source line / function return / bytecode instruction of config.py, simulated thread identifiers (reuse), environment flips, crowds of 64-100 threads, threads unknown to the threading module, stale Thread handles released late, strict-warnings worlds, library operations (runner construction / evaluation) between configuration operations, attempts rejected because of a key or a value, one scope handle shared by several threads with overlapping scopes, forks while other threads are inside scopes (the child takes the identifier of every other parent thread in turn); every read checked against a reference model; seeded schedule search (uniform, sticky, PCT, race-directed) plus systematic single-insertion sweeps; replay + minimisation",
         "text": "Seeded search over thread schedules (uniform/sticky/PCT) x operation programs x environment flips x identifier reuse, each read compared with a reference model of scoped thread-local overrides; sampling, not proof - a clean batch is evidence that no shallow ordering or leftover-state bug exists at line granularity.",
         "note": "Pre-emption at source lines / function returns (2/3 of the runs) or bytecode instructions (1/3) of sqllineage/config.py; C-implemented dict/set operations are atomic, as under the GIL; accepted override values stay in the documented domain (un-coercible values only as attempts that must be rejected); trusted: the reference model in sim/props/c15.py, the scheduler, SimLock and ThreadingShim in sim/sched.py.",
     },
     "C12": {
         "design_ref": "DESIGN.md 4.2",
-        "technique": "deterministic simulation with fault injection: baton-scheduled caller threads analysing script sequences (generated, dialect-specific, corpus, templated with per-project sqlfluff config) with reused providers; faults = bad statement at position k, provider failure on the j-th lookup, exception out of a tap or at a source line of _eval; world classes = T-SQL split mode, dialect zoo, project configurations, same text under T-SQL split mode and another dialect, statements beyond the splitter's guards, warnings-as-errors with scalar sub-queries; locks created by sqllineage code are scheduling points (SimLock); oracle = isolated reference in a fresh fork + provider hygiene probe; seeded search + full fault sweep over a fixed workload + single-insertion sweeps",
+        "technique": "deterministic simulation with fault injection: baton-scheduled caller threads analysing script sequences (generated, dialect-specific, corpus, templated with per-project sqlfluff config) with reused providers; faults = bad statement at position k, provider failure on the j-th lookup, exception out of a tap or at a source line of _eval; world classes = T-SQL split mode, dialect zoo, project configurations, same text under T-SQL split mode and another dialect, statements beyond the splitter's guards, warnings-as-errors with scalar sub-queries and with T-SQL split-mode / plain-mode scripts in different threads, analyses issued through the command line (a provider per call) and through POST /lineage of the bundled web application (one provider for the process); locks created by sqllineage code are scheduling points (SimLock); oracle = isolated reference in a fresh fork + provider hygiene probe; seeded search + full fault sweep over a fixed workload + single-insertion sweeps",
         "text": "Seeded search over run histories x thread schedules x fault points, plus a complete sweep of every failure point (statement position, lookup index, statement boundary) over a fixed 8-script workload; every unfaulted analysis must equal the same analysis alone in a fresh process and every provider must answer like a fresh one whenever it is quiescent. Sampling of histories and schedules; the fault-point sweep is complete only for the fixed workload.",
         "note": "Dependencies (sqlfluff/sqlparse/networkx) are atomic w.r.t. pre-emption; crash points are collaborator call-outs and taps, not arbitrary bytecodes; a wrong-but-stable answer is invisible (reference = same code alone); trusted: sim/props/c12.py, sim/sched.py, the guarded taps in /repo.",
     },
@@ -25,19 +25,19 @@ CLAIMED = {
     },
     "C03": {
         "design_ref": "DESIGN.md 4.4",
-        "technique": "history-vs-reference-model simulation: seeded operation histories (rw / drop / rename, verbatim repeats, shared holder objects) applied operation by operation to the real accumulator (holder API and rendered SQL through LineageRunner with statement tap - incl. column-bearing renderings with and without a metadata provider, stray qualifiers and directory datasets) and to a partial reference model (set of allowed states); reorder / duplicate delivery and hash-seed variation; plus a shared-runner world (two baton-scheduled callers on one runner, random schedules and systematic single-insertion sweeps)",
+        "technique": "history-vs-reference-model simulation: seeded operation histories (rw / drop / rename, verbatim repeats, shared holder objects) applied operation by operation to the real accumulator (holder API and rendered SQL through LineageRunner with statement tap - incl. column-bearing renderings with and without a metadata provider, stray qualifiers and directory datasets) and to a partial reference model (set of allowed states); reorder / duplicate delivery and hash-seed variation; plus a shared-runner world (two baton-scheduled callers on one runner, random schedules and systematic single-insertion sweeps) and a crash-and-retry world (first evaluation interrupted at a statement boundary, same runner asked again)",
         "text": "Seeded sampling of statement histories (length <= 6, 3-4 tables), each prefix compared with a partial reference model that constrains exactly what the statement constrains; order/duplication clause checked by permuted and repeated delivery; every history runs under one of 8 hash seeds. Not the exhaustive enumeration the quantifier mentions (that would be model checking): coverage is reported as distinct histories and model states reached.",
         "note": "History clause only - there is no I/O, clock or thread in the fold, said plainly in DESIGN.md; RENAME outside the determined zone is checked for weak invariants only; exceptions in the loose zone are not judged; trusted: the model in sim/props/c03.py.",
     },
     "C04": {
         "design_ref": "DESIGN.md 4.5",
-        "technique": "history-vs-reference-model simulation of the runner <-> provider-session protocol: seeded statement chains plus fixed shapes (re-creation between verbatim repeated readers, re-writes through permuted column lists, self-rewrites, scalar sub-queries analysed by a nested runner), per-statement facts and session traffic observed through guarded taps, composition oracle over the recorded history; hash-seed variation as the only fault dimension",
+        "technique": "history-vs-reference-model simulation of the runner <-> provider-session protocol: seeded statement chains plus fixed shapes (re-creation between verbatim repeated readers, re-writes through permuted column lists, self-rewrites, scalar sub-queries analysed by a nested runner, non-defining writes - UPDATE / MERGE / INSERT / VALUES - between the definition of a table and its wildcard reader), per-statement facts and session traffic observed through guarded taps, composition oracle over the recorded history; hash-seed variation as the only fault dimension",
         "text": "Seeded sampling of 2-5 statement chains x provider in {none, SimProvider, Dummy} x both analyzers; the script's column paths must equal the composition of the per-statement pairs the taps reported, the session must follow a register/lookup/deregister model statement by statement, wildcard expansion from session metadata must be exact, and attribution never leaves a statement's candidate set. Shapes the property does not determine (unresolved columns with 0 or >=2 defining candidates, cyclic column graphs, re-definition of a table) are skipped and counted.",
         "note": "History clause + collaborator only (deterministic in script and metadata, said plainly in DESIGN.md); per-statement pairs are taken from the library's own statement holders through the tap, so a defect inside ONE statement's analysis is invisible here (that is C02, not claimed); trusted: sim/props/c04.py, sim/gen_sql.py.",
     },
     "C14": {
         "design_ref": "DESIGN.md 4.6",
-        "technique": "deterministic simulation over the import-time / environment / thread seams: zygotes imported with or without SQLLINEAGE_DEFAULT_SCHEMA, baton-scheduled threads analysing under different scoped defaults with line-level pre-emption in config.py and core/models.py, operator environment flips, several threads under the environment mechanism after a change, several analyses inside one scoped block, threads unknown to the threading module, per-thread histories S1 -> S2 -> none; workload = fixed templates + dialect zoo (every ansi-written template under 26 further dialects) + corpus; reference = qualified rendering in a clean process",
+        "technique": "deterministic simulation over the import-time / environment / thread seams: zygotes imported with or without SQLLINEAGE_DEFAULT_SCHEMA, baton-scheduled threads analysing under different scoped defaults with line-level pre-emption in config.py and core/models.py, operator environment flips, several threads under the environment mechanism after a change, several analyses inside one scoped block, an earlier analysis of the thread crashed at the k-th traced source line inside a statement's extraction, threads unknown to the threading module, per-thread histories S1 -> S2 -> none; workload = fixed templates + dialect zoo (every ansi-written template under 26 further dialects) + corpus; reference = qualified rendering in a clean process",
         "text": "A fixed template set covering every Table construction site is analysed under every process lifetime x mechanism (complete sweep, single thread) and under seeded thread schedules / histories / environment flips (sampling); each analysis must equal the S-qualified rendering analysed with no default in a clean process. The input dimension (programs) is deliberately not searched.",
         "note": "Fixed committed templates and dialect zoo (sim/templates_c14.py; template x dialect pairs that do not parse are counted and skipped); qualifier-fallback site excluded (invalid SQL); environment flips only while analyses run under scoped overrides; trusted: sim/props/c14.py, sim/canon.py, ThreadingShim in sim/sched.py.",
     },
